@@ -4,5 +4,5 @@ WT="$1"; shift
 for id in "$@"; do
   P=$(python3 -c "import json;print(json.load(open('/verif/seeded/$id/meta.json'))['property'])")
   /verif/tools_try_seeded.sh "$WT" /verif/seeded/$id/patch.diff "$P" > /tmp/regress-$id.out 2>&1
-  if grep -q "^VIOLATION" /tmp/regress-$id.out; then printf '%s %s CAUGHT %s\n' "$id" "$P" "$(grep -m1 -o 'violation at run [0-9]*\|violation in batch[^:]*' /tmp/regress-$id.out)"; else printf '%s %s MISSED\n' "$id" "$P"; fi
+  if grep -a -q "^VIOLATION" /tmp/regress-$id.out; then printf '%s %s CAUGHT %s\n' "$id" "$P" "$(grep -a -m1 -o 'violation at run [0-9]*\|violation in batch[^:]*' /tmp/regress-$id.out)"; else printf '%s %s MISSED\n' "$id" "$P"; fi
 done
